@@ -406,7 +406,7 @@ func (rc *realCase) cancelClass() {
 	// including the first two and the last two) otherwise
 	full, sample := 60, 20
 	if c.Tier == "thorough" {
-		full, sample = 400, 120
+		full, sample = 150, 48
 	}
 	points := pickPointsFull(t, "cancel.j", rc.nOps+1, full, sample)
 	stages := map[string]bool{}
